@@ -35,6 +35,8 @@ var refactorCmd = &cobra.Command{
 				return
 			}
 
+			// the decoder fills what is already there: start from an empty model
+			parsedDeps = nil
 			_ = json.Unmarshal(file, &parsedDeps)
 
 			renameApp := RenameMethodApp(parsedDeps)
